@@ -1,3 +1,73 @@
-import LibconfigModel.WF
+import LibconfigModel.WriterSpec
+import LibconfigModel.Proofs.C19
+/-
+  C19 — output options change presentation only, exactly as documented.
+  Statements only; helper lemmas live in LibconfigModel/Proofs/C19.lean.
+-/
 namespace Libconfig.C19
+
+/-- The bytes `config_write` produces are exactly the rendering of the item sequence
+`wtoksConfig` (so the statements below, which are about items, are about the real output). -/
+theorem C19_bytes (bufLen : Nat) (c : Config) :
+    c.write bufLen = (wtoksConfig bufLen c).flatMap WTok.bytes := by
+  simp [Config.write, writeSetting, wtoksConfig, prefix_bytes, value_bytes, suffix_bytes]
+
+/-- Any two settings of the presentation attributes (all option bits, tab width, float
+precision, default format) give the same token sequence up to white space, `;`, the
+`=`/`:` choice, float spelling and the hex/decimal spelling of integers. -/
+theorem C19_tokens_invariant (bufLen : Nat) (c : Config) (o₁ o₂ : OutOpts) :
+    norm (wtoksConfig bufLen (c.withOut o₁)) = norm (wtoksConfig bufLen (c.withOut o₂)) :=
+  norm_config bufLen _ _ rfl
+
+/-- what the documentation promises for the indentation of a member at nesting depth `d`
+(number of enclosing groups/lists below the root): `d·w` spaces, or `d` tabs when `w = 0` -/
+def indentSpec (w d : Nat) : Bytes := if w = 0 then List.replicate d 9 else List.replicate (d * w) 32
+
+theorem C19_indent (w d : Nat) (hd : d ≥ 1) : indent (d + 1) w = indentSpec w d :=
+  indent_succ w d hd
+
+/-- Each group member is written as: its indentation (nothing at the top level), its own
+items, an optional `;`, a newline — so every member starts on its own line. -/
+theorem C19_member_layout (bufLen : Nat) (c : Config) (d : Nat) (k : Node) (ks : List Node) :
+    wtoksMembers bufLen c (d + 1) (k :: ks) =
+      (if d ≥ 1 then [WTok.ws (indentSpec c.tabWidth d)] else []) ++
+      (match k.name with
+       | some nm => [WTok.name nm, .ws [32],
+           .assign (if k.ty == T_GROUP then (if c.opt OPT_COLON_GROUPS then 58 else 61)
+                    else (if c.opt OPT_COLON_NONGROUPS then 58 else 61)), .ws [32]]
+       | none => []) ++
+      wtoksValue bufLen c (d + 1) k ++
+      (if c.opt OPT_SEMICOLON then [WTok.semi] else []) ++ [WTok.ws [10]] ++
+      wtoksMembers bufLen c (d + 1) ks := by
+  rw [wtoksMembers]; unfold prefixToks suffixToks
+  by_cases hd : d ≥ 1
+  · have h1 : d + 1 > 1 := by omega
+    cases k.name <;> simp [hd, h1, indent_succ c.tabWidth d hd, indentSpec]
+  · have h1 : ¬ d + 1 > 1 := by omega
+    cases k.name <;> simp [hd, h1]
+
+/-- tab widths above 15 act as 15 -/
+theorem C19_clamp (c : Config) (w : Nat) : (c.setTabWidth w).tabWidth = min w 15 := by
+  simp only [Config.setTabWidth]; split <;> omega
+
+theorem C19_clamp_same (c : Config) (w : Nat) : c.setTabWidth w = c.setTabWidth (min w 15) := by
+  simp only [Config.setTabWidth]; congr 1; split <;> split <;> omega
+
+/-- the semicolon option only adds/removes `;` items, the assignment options only change
+the assignment character: with everything else equal the item sequences differ in nothing
+but those items -/
+theorem C19_semicolon_only (bufLen : Nat) (c : Config) (on : Bool) :
+    (wtoksConfig bufLen (c.setOption OPT_SEMICOLON on)).filter (· != WTok.semi) =
+    (wtoksConfig bufLen c).filter (· != WTok.semi) :=
+  nosemi_config (sameButSemi_setOption c on) rfl bufLen
+
+/-! Non-vacuity: a two-level configuration written with two option vectors -/
+def sample : Config :=
+  { root := { ty := T_GROUP, kids := [
+      { name := some [97], ty := T_GROUP, kids := [{ name := some [98], ty := T_INT, ival := 255 }] } ] } }
+
+example : norm (wtoksConfig 341 (sample.withOut ⟨0, 0, 6, 1⟩)) =
+          norm (wtoksConfig 341 (sample.withOut ⟨0x1e, 4, 2, 0⟩)) := by decide
+example : (sample.withOut ⟨0x02, 4, 6, 1⟩).write 341 = [97, 32, 61, 32, 123, 10, 32, 32, 32, 32, 98, 32, 61, 32, 48, 120, 70, 70, 59, 10, 125, 59, 10] := by decide
+
 end Libconfig.C19
